@@ -62,6 +62,7 @@ pub fn generate(_ctx: &mut Ctx, seed: u64, i: usize, kind: &str, always_malforme
     let mut asyncs = vec![];
     let mut all_changed = false;
     let mut healthy_lua: Option<String> = None;
+    let mut spellings = false;
     let malformed = always_malformed || rng.chance(1, 6);
     match kind {
         "affects" => {
@@ -102,9 +103,18 @@ pub fn generate(_ctx: &mut Ctx, seed: u64, i: usize, kind: &str, always_malforme
             }
         }
         "keep-unique" => {
-            let p = if malformed && rng.chance(1, 2) { *rng.pick(BAD_PATS) } else { *rng.pick(UNIQ_PATS) };
-            attrs.push(("keep-unique".into(), p.into()));
-            if !p.is_empty() { patterns.push(p.to_string()); }
+            if !malformed && rng.chance(1, 8) {
+                // keys are TEXTS: a block that is also sorted as numbers may hold several spellings of one number in a row
+                // (`1.1`, `1.10`; `2`, `2.0`, `+2`) - they are different keys, none of them is a duplicate
+                attrs.push(("keep-unique".into(), "".into()));
+                attrs.push(("keep-sorted".into(), ["", "asc"][rng.below(2)].into()));
+                attrs.push(("keep-sorted-format".into(), "numeric".into()));
+                spellings = true;
+            } else {
+                let p = if malformed && rng.chance(1, 2) { *rng.pick(BAD_PATS) } else { *rng.pick(UNIQ_PATS) };
+                attrs.push(("keep-unique".into(), p.into()));
+                if !p.is_empty() { patterns.push(p.to_string()); }
+            }
         }
         "line-pattern" => {
             let p = if malformed && rng.chance(1, 2) { *rng.pick(BAD_PATS) } else { *rng.pick(LINE_PATS) };
@@ -142,7 +152,18 @@ pub fn generate(_ctx: &mut Ctx, seed: u64, i: usize, kind: &str, always_malforme
     let numeric = attrs.iter().any(|(k, v)| k == "keep-sorted-format" && v.trim().eq_ignore_ascii_case("numeric"))
         && !attrs.iter().any(|(k, _)| k == "keep-sorted-pattern");
     let nlines = rng.below(7);
-    let lines: Vec<String> = (0..nlines)
+    let lines: Vec<String> = if spellings {
+        let groups: [&[&str]; 5] = [&["1", "1.0", "+1", "01"], &["1.1", "1.10", "1.100"], &["2", "2.0", "+2", "2.00"], &["10", "1e1", "10.0"], &["100", "1e2"]];
+        let mut out = vec![];
+        for g in groups.iter() {
+            if rng.chance(2, 3) {
+                let mut picks: Vec<&str> = g.iter().filter(|_| rng.chance(1, 2)).copied().collect();
+                if rng.chance(1, 4) && !picks.is_empty() { let d = picks[0]; picks.push(d); }   // sometimes a real duplicate
+                out.extend(picks.into_iter().map(String::from));
+            }
+        }
+        out
+    } else { (0..nlines)
         .map(|_| {
             if numeric && rng.chance(9, 10) {
                 ["2", "10", "9.5", "-3", "0", "-0", "1e1", " 7 ", "+5", ".5", "5.", "1.50", "1.5", "", "  ", "100", "-3.5", "nan", "inf", "-inf"][rng.below(20)].to_string()
@@ -150,7 +171,7 @@ pub fn generate(_ctx: &mut Ctx, seed: u64, i: usize, kind: &str, always_malforme
                 rng.pick(LINES).to_string()
             }
         })
-        .collect();
+        .collect() };
     // one case in five: a second synchronous rule on the SAME tag (the detection loop meets two detectors firing on one block,
     // possibly the only block of the run carrying either), every validator enabled
     let mut companion = false;
@@ -162,6 +183,8 @@ pub fn generate(_ctx: &mut Ctx, seed: u64, i: usize, kind: &str, always_malforme
             if k == kind || attrs.iter().any(|a| a.0 == k) { continue; }
             if k == "line-pattern" { patterns.push(v.to_string()); }
             attrs.push((k.to_string(), v.to_string()));
+            // the companion may compare as numbers: different spellings of one number are different keys all the same
+            if k == "keep-sorted" && rng.chance(1, 2) { attrs.push(("keep-sorted-format".to_string(), "numeric".to_string())); }
             companion = true;
         }
     }
